@@ -323,10 +323,78 @@ def handleSend (j : Json) : Json :=
       verdict id agree mj spec cls
   | _ => verdict id false Json.null [] "send:diverge"
 
+/-- several files on one SendLargeFile stream, each with its own target list -/
+def handleStream (j : Json) : Json :=
+  let id := jget j "id"
+  let size := jnat (jget j "chunk")
+  let files := jarr (jget j "files")
+  let ids := dedup (files.flatMap fun f => jstrs (jget f "ids"))
+  let behs := ids.map fun i => behOfJson (jget (jget j "behs") i)
+  let impl := jget j "impl"
+  let fileInfo := files.map fun f =>
+    let content := contentOf (jnat (jget f "len")) (jnat (jget f "a")) (jnat (jget f "b"))
+    let M : CopyArgs := { dst := jstr (jget f "dst"), size := content.length, mode := jint (jget f "mode"), uid := jint (jget f "uid"), gid := jint (jget f "gid") }
+    let idx : List Nat := (jstrs (jget f "ids")).map fun i => (ids.findIdx? (· == i)).getD 0
+    (M, content, idx, dedup (jstrs (jget f "ids")))
+  let stream : List (List Nat × Msg) := fileInfo.flatMap fun (M, content, idx, _) =>
+    match toChunksO size content with
+    | .ok chunks => chunks.map fun ch => (idx, ({ md := M, chunk := ch } : Msg))
+    | _ => []
+  let s0 := initStateM ids.length stream
+  let total := (fileInfo.map fun (_, c, _, _) => c.length + 1).foldl (· + ·) 0
+  let fuel := 20 * (s0.todo.length + ids.length + 2) + 4 * total * ids.length + 100
+  let s1 := run behs fuel s0
+  let s2 := runRev behs fuel s0
+  let outcome (s : State) := s.ts.map fun t => (t.results, t.got.length, t.args.map (·.dst))
+  let modelFinished := final s1 && final s2 && quiescent s1
+  let schedOk := outcome s1 == outcome s2
+  let mj := Json.mkObj [("finished", modelFinished), ("schedule_independent", schedOk),
+    ("targets", Json.arr ((ids.zip s1.ts).map fun (i, t) => Json.mkObj [("id", i), ("results", Json.arr (t.results.map Json.bool).toArray),
+      ("got_len", ji t.got.length), ("dst", (t.args.map (·.dst)).getD "")]).toArray)]
+  if !jbool (jget impl "finished") then
+    verdict id (!modelFinished) mj ["C29:not-finished"] "stream:hang"
+  else
+    let results := (jarr (jget impl "results")).map fun r => (jstr (jget r "id"), jstr (jget r "path"), jstr (jget r "err"))
+    let tg := jget impl "targets"
+    -- the (target, file) pairs; `first` = this is the first file addressed to that target on the stream
+    let pairs : List (String × Beh × CopyArgs × List Nat × Bool) := (fileInfo.zipIdx.flatMap fun ((M, content, _, tids), k) =>
+      tids.map fun i =>
+        let b := behOfJson (jget (jget j "behs") i)
+        let first := !((fileInfo.take k).any fun (_, _, _, t') => t'.contains i)
+        (i, b, M, content, first))
+    let judge (first : Bool) : List String :=
+      let ps := pairs.filter fun p => p.2.2.2.2 == first
+      let sfx := if first then "" else ":second-file-same-target"
+      let resOk := ps.all fun (i, b, M, _, _) =>
+        (results.filter fun r => r.1 == i && (r.2.1 == M.dst || (b.missing && r.2.1 == ""))).length ≥ 1 &&
+        results.any fun r => r.1 == i && r.2.2 == errName b
+      let contOk := ps.all fun (i, b, M, content, _) =>
+        let key := i ++ "|" ++ M.dst
+        if b.missing then !jhas tg key
+        else jhas tg key && jnat (jget (jget tg key) "got_len") == (expectedGot b content).length &&
+          jbool (jget (jget tg key) "prefix_ok") && jnat (jget (jget tg key) "calls") == 1 &&
+          (jget (jget tg key) "args").compress == (Json.arr #[Json.str M.dst, ji content.length, ji M.uid, ji M.gid, ji M.mode]).compress
+      (if resOk then [] else ["C29:results" ++ sfx]) ++ (if contOk then [] else ["C29:content" ++ sfx])
+    -- a missing target listed for several files reports once (one sender, lookup fails once): only its first file is judged
+    let extra := results.filter fun r => !(pairs.any fun (i, b, M, _, _) => r.1 == i && (r.2.1 == M.dst || (b.missing && r.2.1 == "")))
+    let spec := judge true ++ judge false ++ (if extra.isEmpty && results.length ≤ pairs.length then [] else ["C29:results:unexpected"])
+    -- correspondence: per target the model predicts the result list, the bytes and the file (dst) its engine saw
+    let agree := modelFinished && schedOk && (ids.zip (behs.zip s1.ts)).all fun (i, b, t) =>
+      let rs := results.filter fun r => r.1 == i
+      rs.length == t.results.length && rs.all (fun r => t.results.contains (r.2.2 != "")) &&
+      (if b.missing then true else
+        match t.args with
+        | some a => let key := i ++ "|" ++ a.dst
+                    jhas tg key && jnat (jget (jget tg key) "got_len") == t.got.length && rs.all (fun r => r.2.1 == a.dst)
+        | none => rs.isEmpty)
+    let multi := pairs.any fun p => !p.2.2.2.2
+    verdict id agree mj spec.eraseDups ("stream:" ++ toString files.length ++ "files" ++ (if multi then "+same-target" else "+disjoint"))
+
 def handle (j : Json) : Json :=
   match jstr (jget j "op") with
   | "chunks" => handleChunks j
   | "send" => handleSend j
+  | "stream" => handleStream j
   | _ => verdict (jget j "id") false Json.null [] "unknown-op"
 end SendO
 
